@@ -344,7 +344,7 @@ where
 
     #[inline(never)]
     fn init(&mut self) -> Result<bool, Error> {
-        let n = fill_buf(&mut self.buf_reader)?;
+        let n = self.fill_buf()?;
         if n == 0 {
             self.state = State::Finished;
             return Ok(false);
@@ -355,6 +355,21 @@ where
     #[inline]
     fn get_buf(&self) -> &[u8] {
         self.buf_reader.buffer()
+    }
+
+    // Fills the buffer (see `fill_buf`). After an I/O error, the buffer is only
+    // partly filled, which the parser cannot tell apart from the end of the input.
+    // Therefore, the buffer is discarded and nothing more is read until the next `seek()`.
+    fn fill_buf(&mut self) -> Result<usize, Error> {
+        match fill_buf(&mut self.buf_reader) {
+            Ok(n) => Ok(n),
+            Err(e) => {
+                self.state = State::Finished;
+                let n = self.get_buf().len();
+                self.buf_reader.consume(n);
+                Err(Error::from(e))
+            }
+        }
     }
 
     // Sets starting points for next position
@@ -422,7 +437,7 @@ where
                 self.make_room(incomplete_pos);
             }
 
-            fill_buf(&mut self.buf_reader)?;
+            self.fill_buf()?;
 
             if let Some(pos) = self.search_incomplete(incomplete_pos)? {
                 incomplete_pos = pos;
@@ -728,7 +743,7 @@ where
         self.incomplete_pos = None;
         self.state = State::Positioned;
         self.buf_pos.reset(0);
-        fill_buf(&mut self.buf_reader)?;
+        self.fill_buf()?;
         Ok(())
     }
 }
